@@ -133,6 +133,7 @@ public:
   std::map<std::string, long> raised;
   int maxDim = 7;
   long kronCells = 150;
+  bool degenerateShapes = true;
 
   explicit Runner(uint64_t seed) : rng(seed), heap(), combos(), counter(), raised() {}
 
@@ -143,10 +144,26 @@ public:
     size_t d = static_cast<size_t>(w[rng.below(16)]);
     return d > static_cast<size_t>(maxDim) ? static_cast<size_t>(maxDim) : d;
   }
+  // 0 x 0 now and then; r x 0 / 0 x c ("degenerate": exists only in the classes that can report it, see need())
   std::pair<size_t, size_t> shape()
   {
     if (rng.chance(1, 14)) return std::make_pair<size_t, size_t>(0, 0);
+    if (degenerateShapes && rng.chance(1, 9)) return rng.coin() ? std::make_pair<size_t, size_t>(dim(), 0) : std::make_pair<size_t, size_t>(0, dim());
     return std::make_pair(dim(), dim());
+  }
+  std::pair<size_t, size_t> properShape()
+  {
+    std::pair<size_t, size_t> s;
+    do s = shape();
+    while ((s.first == 0) != (s.second == 0));
+    return s;
+  }
+  // RowMatrix reports 0 x c as 0 x 0 and ColMatrix r x 0 as 0 x 0: a degenerate operand lives in a class that can hold it
+  char classFor(char cls, size_t r, size_t c)
+  {
+    if (r > 0 && c == 0 && cls == 'C') return rng.coin() ? 'R' : 'L';
+    if (r == 0 && c > 0 && cls == 'R') return rng.coin() ? 'C' : 'L';
+    return cls;
   }
   // a dimension different from d (near miss: one off when possible); never 0 (0 x c does not exist)
   size_t other(size_t d)
@@ -216,6 +233,7 @@ public:
   // an operand of the wanted class, shape and scale whose entries are small: an existing object or a new one
   int need(char cls, size_t r, size_t c, int k, double maxNum = 64)
   {
+    cls = classFor(cls, r, c);
     if (rng.chance(2, 5))
     {
       std::vector<int> cand;
@@ -271,7 +289,9 @@ public:
     for (int id : out)
       if (seen.insert(id).second) w.add(Arr().add(id).add(matJ(*heap.at(id).m, heap.at(id).k)));
     Obj full;
-    full.kv("e", op).kv("in", ai).kv("out", ao).kv("cls", cl).kv("r", res).kv("p", e).kv("w", w);
+    Arr oc;
+    for (int id : out) oc.add(std::string(1, heap.at(id).cls));
+    full.kv("e", op).kv("in", ai).kv("out", ao).kv("cls", cl).kv("ocls", oc).kv("r", res).kv("p", e).kv("w", w);
     tracer().emit(full);
     combos[op].insert(cl);
     if (res != "ok") raised[op]++;
@@ -298,6 +318,15 @@ public:
     n = dim();
     c = dim();
     n2 = conf ? n : other(n);
+    if (degenerateShapes && rng.chance(1, 9))
+    { // (r x 0).(0 x c) = r x c zeros ; (0 x n).(n x c) = 0 x c ; (r x n).(n x 0) = r x 0
+      switch (rng.below(3))
+      {
+      case 0: n = 0; n2 = conf ? 0 : dim(); break;
+      case 1: r = 0; break;
+      default: c = 0; break;
+      }
+    }
   }
 
   // ------------------------------------------------------------ the operations
@@ -576,12 +605,12 @@ public:
     bool alias = form != 1 && rng.chance(1, 6);
     int b = form == 1 ? a : (alias ? a : need(cl[1], sb.first, sb.second, kb, 1000));
     if (alias) sb = sa;
-    size_t rr = sa.first * sb.first, rc = sa.second * sb.second;
-    if (rr == 0 || rc == 0) rr = rc = 0;
+    size_t rr = R(a) * (form == 1 ? dm : R(b)), rc = C(a) * (form == 1 ? dm : C(b));
     bool check = !rng.chance(1, 5);
     char ocl = cl[form == 1 ? 1 : 2];
     std::set<int> ops = {a, b};
-    int o = check ? output(ocl, ops, rr, rc) : fresh(ocl, rr, rc, kb, true);
+    // without the resize the caller supplies an output of exactly the result's size, in a class that can have it
+    int o = check ? output(ocl, ops, (rr == 0 || rc == 0) ? 0 : rr, (rr == 0 || rc == 0) ? 0 : rc) : fresh(classFor(ocl, rr, rc), rr, rc, kb, true);
     long nv = small(), ndA = small(), ndB = small();
     std::string res;
     Obj p;
@@ -701,6 +730,7 @@ public:
       std::pair<size_t, size_t> s = shape();
       if (s.first > 4) s.first -= 3;
       if (s.second > 4) s.second -= 3;
+      if (degenerateShapes && rng.chance(1, 5)) (rng.coin() ? s.first : s.second) = 0; // an r x 0 / 0 x c (or 0 x 0) block: only the offsets move
       int id = (i > 0 && rng.chance(1, 6)) ? in[0] : need(cl[i], s.first, s.second, kb, 1e6);
       if (K(id) != kb) { id = fresh(cl[i], s.first, s.second, kb, false); }
       in.push_back(id);
@@ -721,7 +751,7 @@ public:
   void opCovar()
   {
     std::string cl = classesFor("Covar", 2);
-    std::pair<size_t, size_t> s = shape();
+    std::pair<size_t, size_t> s = properShape(); // no observation (r x 0) has no covariance
     int a = need(cl[0], s.first, s.second, kb, 64);
     int o = output(cl[1], {a}, s.first, s.first);
     std::string res = outcome<bpp::Exception>([&]() { bpp::MatrixTools::covar(M(a), M(o)); });
@@ -757,7 +787,7 @@ public:
   void opExtrema()
   {
     std::string cl = classesFor("Extrema", 1);
-    std::pair<size_t, size_t> s = shape();
+    std::pair<size_t, size_t> s = properShape();
     int a = need(cl[0], s.first, s.second, kb, 1e8);
     if (rng.chance(1, 3) && s.first > 0)
     { // force ties
@@ -1272,6 +1302,7 @@ int main(int argc, char** argv)
   Runner R(envSeed() * 1000003ULL + mode.size() * 7919ULL + static_cast<uint64_t>(argInt(argc, argv, "--salt", 0)));
   R.maxDim = static_cast<int>(argInt(argc, argv, "--maxdim", 7));
   R.kronCells = argInt(argc, argv, "--kroncells", 150);
+  R.degenerateShapes = argInt(argc, argv, "--degenerate", 1) != 0;
   if (mode == "store")
   {
     StoreRunner SR(envSeed() * 1000003ULL + 4241ULL);
